@@ -320,8 +320,7 @@ mod imp {
             self.ints = vec![p.clone()];
             self.in_loop = false; self.in_fn = true; self.in_lambda = true;
             let mut body = Vec::new();
-            // mostly single-statement bodies: a multi-statement body inside call parentheses is the known class
-            if (in_parens && self.r.chance(1, 40)) || (!in_parens && self.r.chance(1, 2)) {
+                        if self.r.chance(2, 5) {
                 let t = self.name("t");
                 body.push(S::Let(false, t.clone(), self.int_expr(1)));
                 self.ints.push(t);
@@ -476,8 +475,7 @@ mod imp {
         }
         /// r-value position: may be wrapped in redundant parentheses
         fn rv(&mut self, e: &E) {
-            let multi_lambda = matches!(e, E::Lambda(_, b) if b.len() > 1);
-            let wrap = self.fam == Fam::Parens && if multi_lambda { self.r.chance(1, 12) } else { self.r.chance(1, 3) };
+            let wrap = self.fam == Fam::Parens && self.r.chance(1, 3);
             if wrap { self.applied += 1; let n = 1 + self.r.below(2) as usize; for _ in 0..n { self.o.push('('); } self.paren += n;
                       self.expr(e); self.paren -= n; for _ in 0..n { self.o.push(')'); } }
             else { self.expr(e); }
